@@ -57,20 +57,26 @@ theorem readMetas_sat (hQerr : ∀ d, Q .err d) (d0 : Dir) (names : List String)
         · exact ih (n + 1)
     · rw [sat_done]; exact hQerr d
 
-/-- `builderWriteAll`: every step keeps an invariant that benign operations preserve; on success the `.tmp` file
-    holds the content -/
-theorem writeTmp_sat {I : Dir → Prop} (hstep : ∀ d o inj, Op.benign o → I d → I (sem o d inj).2)
-    (hG : ∀ d, I d → G d) (base : String) (content : File) (fail k : Prog)
+/-- the paths `builderWriteAll(base.tmp)` can change -/
+def tmpOnly (base : String) (o : Op) : Prop := ∀ p ∈ o.touches, p = ⟨.tmptmp, base⟩ ∨ p = ⟨.tmp, base⟩
+
+theorem tmpOnly_benign {base : String} {o : Op} (h : tmpOnly base o) : o.benign := by
+  intro p hp; rcases h p hp with rfl | rfl <;> simp
+
+/-- `builderWriteAll`: every step keeps an invariant that operations on its two temp files preserve; on success the
+    `.tmp` file holds the content -/
+theorem writeTmp_sat {I : Dir → Prop} (base : String) (hstep : ∀ d o inj, tmpOnly base o → I d → I (sem o d inj).2)
+    (hG : ∀ d, I d → G d) (content : File) (fail k : Prog)
     (hfail : ∀ n' d', I d' → Sat G Q flt fail n' d')
     (hk : ∀ n' d', I d' → d'.get ⟨.tmp, base⟩ = some content → Sat G Q flt k n' d') :
     ∀ n d, I d → Sat G Q flt (writeTmp base content fail k) n d := by
   intro n d hI
-  have bcreate : Op.benign (.create ⟨.tmptmp, base⟩) := by
-    intro p hp; simp [Op.touches] at hp; subst hp; simp
-  have bfd : ∀ w, Op.benign (.fdop w ⟨.tmptmp, base⟩) := by
+  have bcreate : tmpOnly base (.create ⟨.tmptmp, base⟩) := by
+    intro p hp; simp [Op.touches] at hp; exact Or.inl hp
+  have bfd : ∀ w, tmpOnly base (.fdop w ⟨.tmptmp, base⟩) := by
     intro w p hp; simp [Op.touches] at hp
-  have bren : Op.benign (.rename ⟨.tmptmp, base⟩ ⟨.tmp, base⟩ (some content)) := by
-    intro p hp; simp [Op.touches] at hp; rcases hp with rfl | rfl <;> simp
+  have bren : tmpOnly base (.rename ⟨.tmptmp, base⟩ ⟨.tmp, base⟩ (some content)) := by
+    intro p hp; simp [Op.touches] at hp; exact hp
   unfold writeTmp
   simp only []
   rw [sat_op]
